@@ -586,6 +586,45 @@ class CFG:
             return (0, 0)
         return (r[0], None if cyc[0] else r[1])
 
+    def weighted_path_counts(self, weights, start=0):
+        """Like path_counts, but every block carries a (min,max) weight (max None = unbounded),
+        e.g. the summary of the function called in that block."""
+        memo = {}
+        onstack = set()
+        unb = [False]
+        wsites = {b for b, w in weights.items() if w[1] is None or w[1] > 0}
+
+        def go(x):
+            if x in memo:
+                return memo[x]
+            if x in onstack:
+                return None
+            onstack.add(x)
+            w = weights.get(x, (0, 0))
+            if w[1] is None:
+                unb[0] = True
+            here = (w[0], w[1] if w[1] is not None else w[0])
+            res = None
+            if x in self.live_rets:
+                res = here
+            for s, _ in self.succ[x]:
+                if s in onstack:
+                    if self._cycle_has_site(s, x, wsites):
+                        unb[0] = True
+                    continue
+                r = go(s)
+                if r is None:
+                    continue
+                r = (r[0] + here[0], r[1] + here[1])
+                res = r if res is None else (min(res[0], r[0]), max(res[1], r[1]))
+            onstack.discard(x)
+            memo[x] = res
+            return res
+        r = go(start)
+        if r is None:
+            return (0, 0)
+        return (r[0], None if unb[0] else r[1])
+
     def _cycle_has_site(self, head, tail, sites):
         # blocks on some path head ->* tail
         fw = {head} | self.reachable_from(head)
@@ -619,7 +658,7 @@ def _const_int(c):
 #  ('cast', kind, a) ('discr', a) ('agg', desc, ops_tuple) ('phi', trees_tuple) ('loop',) ('deep',) ('unk', why)
 #  ('upvar', name)  ('local', l)  for uninitialised / unknown
 
-MAX_DEPTH = 14
+MAX_DEPTH = 40
 
 
 def const_node(c):
